@@ -7,7 +7,8 @@ EXPL = ("R12.1 in every sampling formatter the call of format_with_sample_rate i
         "(comparison forms normalised; `rate == 1.0` short-cut allowed), the compared rate and the passed rate have the same single "
         "origin, and the non-emitting branch returns without touching the output; R12.2 format_with_sample_rate rejects non-positive "
         "/ NaN rates before anything else and passes Some(n) with n = rate_to_n(rate, rng) to the formatter (the weight then reaches "
-        "every count: R03.1); R12.3 every value stored into a congressional group's sample rate is the constant 1.0 or clamped by "
+        "every count: R03.1); R12.5 the data slice of that weight (through the local helpers) contains no "
+        "f32 arithmetic, no f32 method call, no narrowing cast, and takes the floor as f64->u64; R12.3 every value stored into a congressional group's sample rate is the constant 1.0 or clamped by "
         "min(1.0), and the derived Default (0.0) is only used as the base of a struct update that overrides the rate; R12.4 every "
         "iteration of a rate-update loop over the groups stores a rate (no group keeps a stale one). Not decided: "
         "unbiasedness (expectation 1/rate), budget and monotonicity of congressional rates, 1/rate rounding.")
@@ -179,6 +180,96 @@ def run(ctx):
                         guards["nan"] = all(_returns_err(b, x) for x in no)
             ctx.check(guards["nonpositive"], "R12.2", key + "#rejects-non-positive-rate", loc(b, c.bb), "a rate <= 0 is not rejected with an error before formatting")
             ctx.check(guards["nan"], "R12.2", key + "#rejects-nan-rate", loc(b, c.bb), "a NaN rate is not rejected with an error before formatting")
+    # ------------------------------------------------------------------ R12.5 the weight is computed from the rate at f64 precision
+    # backward data slice from the multiplicity handed to the formatter, through the local helpers that produce it
+    ARITH = ("Add", "Sub", "Mul", "Div", "Rem", "AddWithOverflow", "SubWithOverflow", "MulWithOverflow", "AddUnchecked", "SubUnchecked", "MulUnchecked")
+
+    def op_ty(b, o):
+        c = op_const(o)
+        if c is not None:
+            return c.get("ty", "")
+        pl = o.get("copy") or o.get("move")
+        if pl is None:
+            return ""
+        if pl.get("p"):
+            last = pl["p"][-1]
+            return last[4] if last[0] == "f" and len(last) > 4 else ""
+        return b.local_ty(pl["l"])
+
+    def slice_check(b, roots, depth, seen_bodies, stats):
+        """walk the data dependences of `roots` (locals) in b; report precision-losing steps"""
+        bad = []
+        defs = b.defs()
+        seen, work = set(), list(roots)
+        while work:
+            l = work.pop()
+            if l in seen:
+                continue
+            seen.add(l)
+            for kind, bb_, j, node in defs.get(l, []):
+                if b.is_cleanup(bb_):
+                    continue
+                if kind == "call":
+                    cs = CallSite(b, bb_, node)
+                    stats["calls"] += 1
+                    d = (cs.resolved or cs.def_ or "")
+                    if "f32" in d and "::<impl f32>::" in d or d.startswith("core::f32::") or d.startswith("std::f32::"):
+                        bad.append((bb_, "calls %s on the 32-bit rate" % cs.name))
+                    for a in node["args"]:
+                        pl = a.get("copy") or a.get("move")
+                        if pl is not None:
+                            work.append(pl["l"])
+                    if depth > 0:
+                        for sb in local_callee_bodies(F, cs):
+                            if sb.crate == b.crate and sb.def_ not in seen_bodies:
+                                seen_bodies.add(sb.def_)
+                                bad += [(None, "%s: %s" % (sb.name, m)) for _, m in slice_check(sb, [0], depth - 1, seen_bodies, stats)]
+                    continue
+                if node["k"] != "assign":
+                    continue
+                rv = node["rv"]
+                ops = []
+                if rv["k"] == "binop":
+                    ops = [rv["a"], rv["b"]]
+                    stats["ops"] += 1
+                    if rv["op"] in ARITH and any(op_ty(b, o) == "f32" for o in ops):
+                        bad.append((bb_, "%s in 32-bit floating point" % rv["op"]))
+                elif rv["k"] == "unop":
+                    ops = [rv["a"]]
+                elif rv["k"] == "cast":
+                    ops = [rv["op"]]
+                    stats["casts"] += 1
+                    src = op_ty(b, rv["op"])
+                    if rv["kind"].startswith("FloatToFloat") and rv["ty"] == "f32":
+                        bad.append((bb_, "narrows to f32"))
+                    if rv["kind"].startswith("FloatToInt") and (src != "f64" or rv["ty"] not in ("u64", "u128")):
+                        bad.append((bb_, "floor taken as `%s as %s` (expected f64 as u64)" % (src, rv["ty"])))
+                elif rv["k"] == "use":
+                    ops = [rv["op"]]
+                elif rv["k"] in ("agg",):
+                    ops = rv["ops"]
+                elif rv["k"] == "ref":
+                    work.append(rv["place"]["l"])
+                for o in ops:
+                    pl = o.get("copy") or o.get("move")
+                    if pl is not None:
+                        work.append(pl["l"])
+        return bad
+
+    n5 = 0
+    for b in impls:
+        for c in [c for c in b.calls() if any(sb.crate == b.crate for sb in local_callee_bodies(F, c)) and len(c.args) >= 4 and
+                  "Option<u64>" in (b.local_ty(op_local(c.args[3])) if op_local(c.args[3]) is not None else "")]:
+            stats = {"calls": 0, "ops": 0, "casts": 0}
+            visited = set()
+            bad = slice_check(b, [op_local(c.args[3])], 3, visited, stats)
+            n5 += stats["ops"] + stats["casts"]
+            ctx.check(not bad, "R12.5", fnkey(b) + "#weight-computed-in-f64", loc(b, c.bb),
+                      "the weight handed to the formatter depends on a precision-losing step: %s. A 32-bit reciprocal has 24 significant bits, so for "
+                      "rates below about 2^-24 the weight is no longer floor(1/rate) or ceil(1/rate)" % "; ".join(m for _, m in bad[:4]),
+                      "data slice of the multiplicity through %s: %d arithmetic/cast steps, none on f32 values" % (sorted(x.split("::")[-1] for x in visited), stats["ops"] + stats["casts"]))
+            ctx.floor("R12.5", "helper bodies in the weight's data slice", len(visited), 2)
+    ctx.floor("R12.5", "arithmetic and cast steps in the weight's data slice", n5, 5)
     # ------------------------------------------------------------------ R12.3
     n3 = 0
     gs = [a for a in F.adts.values() if a["crate"] == W and any(f["name"] == "sample_rate" and f["ty"] == "f32" for v in a["variants"] for f in v["fields"])]
